@@ -186,7 +186,11 @@ func gen(c *core.Ctx) error {
 				}
 				n := frameCount(tr)
 				mk := func(fault string, edit []ss.EditItem) *desc {
-					return &desc{Setup: su, Warm: w, Msgs: tr, Edit: edit, API: apis[k%3], ASends: aSends, Fault: fault}
+					api := apis[k%3]
+					if ti == 0 { // single-frame messages: also the per-frame receive APIs (ReceiveFrame is what GetSecret/GetFile use)
+						api = []string{"complete", "frame", "msgall", "framewe", "sre", "frame"}[k%6]
+					}
+					return &desc{Setup: su, Warm: w, Msgs: tr, Edit: edit, API: api, ASends: aSends, Fault: fault}
 				}
 				idx := func(j int) ss.EditItem { return ss.EditItem{Kind: "gen", J: base + j, Flag: -1} }
 				full := func() []ss.EditItem {
